@@ -50,9 +50,8 @@ def is_hyp(b):
 
 
 WFTXT = ("operand of the property's quantifier (\"for all well-formed tiers / textgrids\"); what the constructors return "
-         "(`C05.construct_wf`, `C05.pconstruct_wf`) and every operation preserves (`C05.reachable_wf`, `C05.preachable_wf`). "
-         "The one constructible exception — an entry-less interval tier with a reversed requested span — is "
-         "`C05.construct_reversed_span_counterexample`")
+         "(`C05.construct_wf`, `C05.pconstruct_wf` — no hypothesis since fix 9432f3b / finding A29) and every operation "
+         "preserves (`C05.reachable_wf`, `C05.preachable_wf` — no side condition)")
 LISTWF = ("the entry list of a well-formed tier (positive lengths, time order, no overlap / the tiling the save works on): "
           "operand of the quantifier, delivered by the caller theorem from `t.WF`")
 RWF = ("layer R (any rounding arithmetic): the order facts a well-formed tier has in floats (no overlap, no reversed / "
@@ -60,29 +59,14 @@ RWF = ("layer R (any rounding arithmetic): the order facts a well-formed tier ha
 RES = "names the result / the member / the case the statement is about — no input is excluded"
 ABREJ = "the property rejects `a ≥ b`; excluded case = "
 NEG = ("NOT enforced by the code; replayed (tiers on negative times): entries of B are dropped / clipped at time 0 "
-       "silently, an entry-less pair comes back with a reversed span → **counter-example** "
+       "silently → **counter-example** "
        "`C09.append_negative_counterexample` (finding); kept, documented in the docstring")
 
 RULES = [
     # ---------------------------------------------------------------- results, members, cases
     (r"rejects$", r"≤", "i", "the rejected case itself (the property: \"a region / window / entry with a ≥ b is rejected\")"),
     # ---------------------------------------------------------------- C05
-    (r"C05\.construct_wf$", r"hspan", "iii",
-     "NOT enforced. Replayed: `IntervalTier('T', [], 5, 2)` → minTimestamp 5.0 > maxTimestamp 2.0, `validate()` True; "
-     "`tier.new(entries=[], minTimestamp=20)` → span [20, 10]; `PointTier('T', [], 5, 2)` → [2, 5]; model identical → "
-     "**counter-example** `C05.construct_reversed_span_counterexample` (finding). Needed only for an entry-less tier: "
-     "`C05.construct_wf_of_entries` (new) has no such hypothesis. Kept, documented"),
-    (r"C05\.new_wf$", r"hspan", "iii", "as `C05.construct_wf` (`tier.new` is the constructor); same counter-example"),
-    (r"C05\.construct_wf_of_entries$", r"hne", "res", "the complementary case of `construct_reversed_span_counterexample`"),
-    (r"C05\.(step_wf|reachable_wf)$", r"OpOk|Admissible", "iii",
-     "`OpOk` audited clause by clause. REMOVED: `insert: pyStrip x.l = x.l` (the code strips; `C11.step_wf` now has no side "
-     "condition) and `space: lo ≤ s` (never used). LEFT: `space: 0 < d` — (i), C08's quantifier \"all d>0\"; replayed d ≤ 0: "
-     "not checked by the code (d = 0 in 'split' cuts the straddler in two; d < 0 moves entries back, raises "
-     "TextgridStateError on overlap, or returns e.g. `IntervalTier('T',[],0,10).insertSpace(5,-20)` with span [0,-10]). "
-     "`union/difference/intersection/mergeLabels/morph: u.WF` — (i) \"operations on well-formed tiers\"; every tier object "
-     "comes from a constructor; the only ill-formed constructible one (entry-less, reversed span) was replayed: these "
-     "operations read only the argument's entries (appendTier also its end) and behave as for any entry-less tier. "
-     "`append: 0 ≤ u.lo ∧ 0 ≤ t.hi` — (iii), " + NEG),
+    (r"C05\.construct_wf_of_entries$", r"hne", "res", "unused (`_hne`): a special case of `C05.construct_wf`, kept for the index"),
     (r"C05\.pstep_(wf|err)$", r"POpOk|PErrOk", "res", "`POpOk` / `PErrOk` are `True` for every operation (kept for the shape of the statement; `pstep_wf_any`, `preachable_wf` carry no side condition)"),
     (r"C05\.disj_of_adjacent$", r"ivsNoOverlap", "ii", "helper: this IS the constructor's check (`_validate`); refusal otherwise: `C05.construct_wf` (TextgridStateError)"),
     (r"pyStrip_pyJoin$", r"pyStrip", "ii", "helper: labels of a well-formed tier are stripped (constructor and `insertEntry` strip: `C11.insertEntry_strip`)"),
@@ -108,7 +92,9 @@ RULES = [
     (r"LayerR\.", r"Tm\.zero ≤ d", "i", "weaker than the property's `d > 0`"),
     (r".", r"0 < d\)", "i",
      "C08's quantifier \"all d>0\". NOT enforced by the code — replayed d ≤ 0 on both tier classes and on Textgrid: no "
-     "rejection (see `C05.step_wf`); outside every property's quantifier, the model does the same"),
+     "rejection: d = 0 in 'split' cuts the straddler in two; d < 0 moves entries back, raises TextgridStateError on overlap; "
+     "`IntervalTier('T',[],0,10).insertSpace(5,-20)` returns the span [-10, 0] (before fix 9432f3b: [0, -10]). Whatever is "
+     "returned is well-formed (`C05.step_wf`, no side condition); outside every property's quantifier, the model does the same"),
     (r"C06\.cropOne", r"iv\.s < iv\.e", "i", "an entry of a well-formed tier"),
     (r"C06\.cropOne_strict", r"_hab", "ii", "unused (name `_hab`); " + ABREJ + "`C06.crop_rejects`"),
     (r"C06\.|C12\.crop", r"m ≠ \.lax", "i", "the property states the exact-window span for strict / truncated only; lax: `C06.crop_norebase_span_lax`, `C12.crop_lax_spans_differ_example`"),
